@@ -118,8 +118,11 @@ thread_local! {
 }
 
 fn fill<T: Elem, C: PositiveLength>(rows: usize, max_index: usize, cells: &[T]) -> StripedScores<T, C> {
-    let mut s = StripedScores::<T, C>::empty();
-    s.resize(rows, max_index);
+    // the empty matrix is what `StripedScores::empty()` / `default()` return (no `resize` in between)
+    let mut s = if max_index % 2 == 0 { StripedScores::<T, C>::empty() } else { StripedScores::<T, C>::default() };
+    if rows > 0 || max_index > 0 {
+        s.resize(rows, max_index);
+    }
     let m = s.matrix_mut();
     for r in 0..rows {
         for c in 0..C::USIZE {
